@@ -627,9 +627,16 @@ def generate():
         pc = bool(re.search(r'if\s+libc::strlen\(path\)\s*>=\s*sockaddr\.sun_path\.len\(\)\s*\{\s*return\s+Err', nsu))
         out.append(f"def shape_pathChecked : Bool := {'true' if pc else 'false'}")
         i_acc = osrv.find('libc::accept4(self.fd, sockaddr, sockaddr_len, SOCK_FLAGS)')
+        i_own = osrv.find('let receiver = OsIpcReceiver::from_fd(client_fd);')
         i_lin = osrv.find('make_socket_lingering(client_fd)?')
-        i_rcv = osrv.find('receiver.recv()?')
+        i_rcv = osrv.find('receiver.recv()')
         out.append(f"def shape_acceptLingerThenRecv : Bool := {'true' if 0 <= i_acc < i_lin < i_rcv else 'false'}")
+        out.append(f"def shape_acceptOwnsBeforeLinger : Bool := {'true' if 0 <= i_acc < i_own < i_lin else 'false'}  -- the accepted descriptor has its owner before setsockopt can fail")
+        # `accept` consumes the server: a wait interrupted by a signal is repeated inside (accept4, and the receive of the first message)
+        oflat = re.sub(r'\s+', '', osrv)
+        r1 = 'letclient_fd=loop{letclient_fd=libc::accept4(self.fd,sockaddr,sockaddr_len,SOCK_FLAGS);ifclient_fd>=0{breakclient_fd;}leterror=UnixError::last();if!matches!(error,UnixError::Errno(libc::EINTR)){returnErr(error);}};' in oflat
+        r2 = 'let(data,channels,shared_memory_regions)=loop{matchreceiver.recv(){Err(UnixError::Errno(libc::EINTR))=>{},result=>breakresult?,}};' in oflat
+        out.append(f"def shape_acceptRetriesEintr : Bool := {'true' if r1 and r2 else 'false'}")
         sc = bool(re.search(r'libc::socket\(libc::AF_UNIX,\s*SOCK_SEQPACKET\s*\|\s*SOCK_FLAGS,\s*0\)', osrv)) and \
             bool(re.search(r'#\[cfg\(target_os = "linux"\)\]\s*const SOCK_FLAGS: c_int = libc::SOCK_CLOEXEC;', unix)) and \
             'libc::accept4(self.fd, sockaddr, sockaddr_len, SOCK_FLAGS)' in osrv
